@@ -193,6 +193,26 @@ def do_check(prop, tier):
                 violations_out.append({"class": v["class"], "fingerprint": v["fingerprint"], "count": len(vs),
                                        "replay": path, "shrink": info})
 
+    # 3. determinism self-test: a sample of the same run indices executed again, in other zygotes, at another worker
+    #    count, must give identical event-log digests (a mismatch is a harness defect: exit 2, nothing else is believed)
+    selftest = {"pairs_compared": 0, "mismatches": 0}
+    n_self = int(os.environ.get("VERIF_SELFTEST", "48" if tier == "quick" else "300"))
+    if n_self and exit_code == 0 and not harness_errors:
+        try:
+            for part in spec["parts"](tier):
+                a = runner.explore(prop, part["engine"], part["params"], seed, n_self, workers=workers, digests=True,
+                                   per_fork=part.get("per_fork", 1), wall_s=120, run_timeout_s=part.get("run_timeout_s", 60.0))
+                b = runner.explore(prop, part["engine"], part["params"], seed, n_self, workers=3, digests=True,
+                                   per_fork=1, wall_s=300, run_timeout_s=part.get("run_timeout_s", 60.0))
+                common = [i for i in a["digests"] if i in b["digests"]]
+                bad = [i for i in common if a["digests"][i] != b["digests"][i]]
+                selftest["pairs_compared"] += len(common)
+                selftest["mismatches"] += len(bad)
+                if bad:
+                    harness_errors.append(f"determinism self-test: run indices {bad[:5]} of engine {part['engine']} gave different digests")
+        except runner.HarnessError as e:
+            harness_errors.append("determinism self-test: " + str(e))
+
     if harness_errors:
         for he in harness_errors[:5]:
             _print(f"HARNESS-ERROR property={prop} {he}")
@@ -219,6 +239,7 @@ def do_check(prop, tier):
         "sim_time_s": spec.get("sim_time", "n/a: the library reads no clock on this path"),
         "real_vs_stub": spec["real_vs_stub"],
         "known_findings_confirmed": known_confirmed,
+        "determinism_selftest": selftest,
         "stopped_early_by_wall_cap": stopped_early,
         "harness_errors": len(harness_errors),
         "workers": workers,
